@@ -24,6 +24,11 @@ open GrpcModel.Generated
 
 abbrev Bytes := List UInt8
 
+/-- 2^32, 2^31 and math.MaxUint32 (named so that elaboration never unfolds the literals) -/
+def two32 : Nat := 4294967296
+def two31 : Nat := 2147483648
+def maxU32 : Nat := 4294967295
+
 def b (s : String) : Bytes := s.toUTF8.toList
 
 /-! ## codes and tables (T4) -/
@@ -99,7 +104,7 @@ def parseIntBits (bits : Nat) (s : Bytes) : Option Int :=
   else (if n < 2 ^ (bits - 1) then some (n : Int) else none)
 
 /-- `codes.Code(uint32(code))` -/
-def toUInt32 (i : Int) : Nat := (i % 4294967296).toNat
+def toUInt32 (i : Int) : Nat := (i % (two32 : Int)).toNat
 
 def baseContentType : Bytes := b "application/grpc"
 
@@ -286,7 +291,7 @@ def limit : Nat := defaultWindowSize
 
 def init (hdrSize : Nat) (maxConc : Option Nat) (maxSendHdr : Option Nat) : State :=
   -- NewHTTP2Client + readServerPreface (handleSettings(sf, isFirst = true)); loopy has written the ack
-  let mc := maxConc.getD 4294967295
+  let mc := maxConc.getD maxU32
   { hdrSize := hdrSize, now := 0, tstate := .reachable, nextID := 1, streams := [], rpcs := [],
     goAwayClosed := false, prevGoAwayID := 0, reason := 0,
     quota := (defaultMaxStreamsClient : Int) + ((mc : Int) - (defaultMaxStreamsClient : Int)), maxConc := mc, waiting := 0,
@@ -521,7 +526,7 @@ def State.handleGoAway (s : State) (id code : Nat) (debug : Bytes) : State :=
       let s := { s with reason := reason, goAwayClosed := true }
       if s.tstate ≠ .draining then ({ s with tstate := .draining }).notify reason code false else s
     else s
-  let upper := if s.prevGoAwayID = 0 then 4294967295 else s.prevGoAwayID
+  let upper := if s.prevGoAwayID = 0 then maxU32 else s.prevGoAwayID
   let s := { s with prevGoAwayID := id }
   let s :=
     if s.activeCount == 0 then { s with goAwayErrs := s.goAwayErrs + 1 }
@@ -629,7 +634,7 @@ def State.loopyStep (s : State) : State × List Wire :=
       if s.estd.isEmpty then s.loopyExit true else (s, [])
     | .outGoAway =>
       if dead then s.loopyExit false else
-      (s.write (.G ((s.nextID + 4294967296 - 2) % 4294967296 % 2147483648) h2No)).loopyExit true
+      (s.write (.G ((s.nextID + two32 - 2) % two32 % two31) h2No)).loopyExit true
     | .settingsAck => if dead then s.loopyExit false else (s.write .Sa, [])
     | .pingAck d => if dead then s.loopyExit false else (s.write (.Pa d), [])
     | .outWU id n => if dead then s.loopyExit false else (s.write (.W id n), [])
@@ -662,11 +667,32 @@ def State.loopyAbort (s : State) : State × List Wire :=
 
 /-! ## application side -/
 
-/-- `NewStream` goes back to its select with the channel it already had (nil on the first try) -/
-def reblockF (r : Rpc) : Rpc :=
+/-- a blocked `NewStream` call gets its result (finished calls are never rewritten) -/
+def setSt (v : RpcSt) (r : Rpc) : Rpc :=
   match r.st with
-  | .blocked ch => { r with st := .blocked ch }
-  | _ => { r with st := .blocked none }
+  | .blocked _ => { r with st := v }
+  | _ => r
+
+/-- `checkForHeaderListSize` fails -/
+def State.hdrTooBig (s : State) : Bool :=
+  match s.maxSendHdr with | some m => decide (s.hdrSize > m) | none => false
+
+/-- `t.waitingStreams++` / `--` (uint32) and `t.streamQuota--` -/
+def State.incWaiting (s : State) : State := { s with waiting := (s.waiting + 1) % two32 }
+def State.decWaiting (s : State) : State := { s with waiting := if s.waiting = 0 then maxU32 else s.waiting - 1 }
+def State.takeQuota (s : State) : State := { s with quota := s.quota - 1 }
+
+/-- success path of `checkForStreamQuota`: allocate the id, insert into `activeStreams`, queue the HEADERS -/
+def State.register (s : State) (k : Nat) (r : Rpc) : State :=
+  let id := s.nextID
+  let str : Strm :=
+    { id := id, rpc := k, reader := r.reader, deadline := r.deadline, wdone := false, term := none,
+      unprocessed := false, hdrClosed := false, headerValid := false, noHeaders := false,
+      bytesReceived := false, nonGRPC := none, pd := 0, pu := 0, inActive := true, inSnapshot := false,
+      buffered := 0, nread := 0 }
+  let idx := s.streams.length
+  let s := { s with nextID := id + 2, streams := s.streams ++ [str], cbuf := s.cbuf ++ [Item.hdr id] }
+  s.sendToken.updRpc k (setSt (.opened idx))
 
 /-- one pass of `NewStream`'s `executeAndPut(checkForHeaderListSize && checkForStreamQuota, hdr)` for
 RPC `k` (`first` = firstTry). -/
@@ -674,29 +700,16 @@ def State.tryNewStream (s : State) (k : Nat) (first : Bool) : State :=
   match s.rpcs[k]? with
   | none => s
   | some r =>
-  if s.cbufClosed then s.updRpc k fun r => { r with st := .failed cUnavailable true } else
-  if (match s.maxSendHdr with | some m => decide (s.hdrSize > m) | none => false) then
-    s.updRpc k fun r => { r with st := .failed cInternal false }
+  if s.cbufClosed then s.updRpc k (setSt (.failed cUnavailable true)) else
+  if s.hdrTooBig then s.updRpc k (setSt (.failed cInternal false))
   else if s.quota ≤ 0 then
-    let s := if first then { s with waiting := (s.waiting + 1) % 4294967296 } else s
-    s.updRpc k fun r => { r with st := .blocked (some s.chanGen) }
+    (if first then s.incWaiting else s).updRpc k (setSt (.blocked (some s.chanGen)))
   else
-    let s := if first then s else { s with waiting := (s.waiting + 4294967296 - 1) % 4294967296 }
-    let s := { s with quota := s.quota - 1 }
+    let s := (if first then s else s.decWaiting).takeQuota
     if s.tstate ≠ .reachable then
-      -- not created; the caller goes back to its select with the channel it already had
-      s.updRpc k reblockF
-    else
-      let id := s.nextID
-      let str : Strm :=
-        { id := id, rpc := k, reader := r.reader, deadline := r.deadline, wdone := false, term := none,
-          unprocessed := false, hdrClosed := false, headerValid := false, noHeaders := false,
-          bytesReceived := false, nonGRPC := none, pd := 0, pu := 0, inActive := true, inSnapshot := false,
-          buffered := 0, nread := 0 }
-      let idx := s.streams.length
-      let s := { s with nextID := id + 2, streams := s.streams ++ [str], cbuf := s.cbuf ++ [Item.hdr id] }
-      let s := s.sendToken
-      s.updRpc k fun r => { r with st := .opened idx }
+      -- not created; the caller goes back to its select with the channel it already had (nil on the first try)
+      s
+    else s.register k r
 
 /-- the app starts an RPC -/
 def State.newRPC (s : State) (reader : Bool) (deadline : Option Nat) : State :=
@@ -727,10 +740,10 @@ def State.wake (s : State) (k : Nat) (via : Via) : State :=
             else if s.token then ({ s with token := false }).tryNewStream k false
             else s)
        | .ctx => if r.ctxDone s.now then
-            s.updRpc k fun r => { r with st := .failed (if r.cancelled then cCanceled else cDeadline) false }
+            s.updRpc k (setSt (.failed (if r.cancelled then cCanceled else cDeadline) false))
           else s
-       | .goAway => if s.goAwayClosed then s.updRpc k fun r => { r with st := .failed cUnavailable true } else s
-       | .tctx => if s.ctxDone then s.updRpc k fun r => { r with st := .failed cUnavailable true } else s)
+       | .goAway => if s.goAwayClosed then s.updRpc k (setSt (.failed cUnavailable true)) else s
+       | .tctx => if s.ctxDone then s.updRpc k (setSt (.failed cUnavailable true)) else s)
     | _ => s
 
 /-- the RPC's context is done while it owns a stream: `ClientStream.Close(ContextErr(ctx.Err()))`
